@@ -49,7 +49,7 @@ type Property struct {
 // probe that never fires is visible in the evidence (probes_at_zero).
 var expectedProbes = map[string][]string{
 	"C01": {"program.nesting_depth_3", "program.jump_inside_nested_body", "program.options_end_a_body", "world.nodes_over_several_readers", "world.command_polled_while_pending", "world.hub_loop", "program.block_chain_6_to_12_deep"},
-	"C03": {"world_with_failing_statement", "world_with_host_write"},
+	"C03": {"world_with_failing_statement", "world_with_host_write", "storer_history", "storer_history_with_two_type_switches_on_one_name"},
 	"C06": {"fault_requiring_error", "fault_with_open_outcome"},
 	"C07": {"receiver.FRESH", "receiver.READY", "receiver.CHOOSING", "receiver.PENDING", "receiver.ENDED", "receiver.sibling_path", "receiver.restored_before", "two_receivers_of_one_snapshot"},
 	"C10": {"shape.raw_prefilled", "shape.raw_buffered", "shape.raw_unbuffered", "shape.conv_none", "shape.conv_error", "shape.conv_chan", "shape.conv_rochan", "wait_polled_one_tick_before_deadline", "command_error_surfaced"},
@@ -68,7 +68,12 @@ func init() {
 	register(&Property{ID: "C01", Level: "exploration", World: c01World, Replay: c01Replay,
 		Worlds: map[string]int{"quick": 2500, "thorough": 12000}, Batch: map[string]int{"quick": 1, "thorough": 4},
 		Rule: "worlds = generated program x layout x reader distribution x completion schedule, each run over all model-legal choice paths (<=64 leaves) or 8 sampled ones; a case is a (program, path); non-trivial = constructs nested >=2 deep, or a jump inside a nested body, or an option group ending an if/option body; distinct by hash of (program AST, choices)"})
-	register(&Property{ID: "C03", Level: "exploration", World: c03World, Replay: func(p *Plan) *Violation { return c03Exec(p, nil) },
+	register(&Property{ID: "C03", Level: "exploration", World: c03World, Replay: func(p *Plan) *Violation {
+		if ops, ok := decodeExtra[[]storerOp](p, "storer_ops"); ok {
+			return c03StorerExec(ops, nil)
+		}
+		return c03Exec(p, nil)
+	},
 		Worlds: map[string]int{"quick": 4000, "thorough": 15000}, Batch: map[string]int{"quick": 1, "thorough": 12},
 		Rule: "worlds = set/declare-heavy generated program (all six operators, typed and ill-typed, known and unknown variables) x host schedule with interleaved host-side writes (same type, new name, other type, clear) x storer kind (recording storer / host-held InMemoryStorer); after every op the storer's content is compared bit-exactly with the model store; non-trivial = >=3 assignments and (>=1 host write or a failing statement); distinct by hash of (program, ops)"})
 	register(&Property{ID: "C06", Level: "exploration", World: c06World, Replay: func(p *Plan) *Violation { return c06Exec(p, nil) },
